@@ -113,6 +113,79 @@ def ref_lines(s):
     return lines
 
 
+def ref_readline_events(ev, ncalls):
+    """types.ReadLine called ncalls times over bufio.Reader.ReadBytes('\\n') on an event stream: a byte (< 256) or a read
+    error 256+code handed out once (code 0 = io.EOF), io.EOF for ever after the last event.
+    Result: ('L', line) for (line, nil), ('E', code) for (nil, err)."""
+    out, pos = [], 0
+    for _ in range(ncalls):
+        buf, err = [], None
+        while True:
+            if pos >= len(ev):
+                err = 0
+                break
+            x = ev[pos]
+            pos += 1
+            if x >= 256:
+                err = x - 256
+                break
+            buf.append(x)
+            if x == 10:
+                break
+        if err not in (None, 0):
+            out.append(('E', err))             # the bytes read before a real error are not a line
+        elif not buf:
+            out.append(('E', 0))
+        else:
+            if buf[-1] == 10:
+                buf = buf[:-1]
+            if buf and buf[-1] == 13:
+                buf = buf[:-1]
+            out.append(('L', buf))
+    return out
+
+
+def caller_view(ev):
+    """what a caller looping on err == nil must see on a stream without io.EOF events in the middle: the COMPLETE lines
+    in front of the first read error and that error; without a read error all lines and io.EOF.
+    Computed from the data alone (no simulation of the calls)."""
+    errs = [i for i, x in enumerate(ev) if x >= 256]
+    if not errs:
+        return ref_lines(ev), 0
+    pre = ev[:errs[0]]
+    whole = pre[:len(pre) - pre[::-1].index(10)] if 10 in pre else []
+    return ref_lines(whole), ev[errs[0]] - 256
+
+
+def parse_rl_events(r):
+    """driver answer of op 26 -> list of ('L', line) | ('E', code) | ('LE', line, code)"""
+    out, i = [], 2
+    while i < len(r):
+        k = r[i]
+        if k == 0:
+            n = r[i + 1]; out.append(('L', r[i + 2:i + 2 + n])); i += 2 + n
+        elif k == 1:
+            out.append(('E', r[i + 1])); i += 2
+        else:
+            n = r[i + 1]; out.append(('LE', r[i + 2:i + 2 + n], r[i + 2 + n])); i += 3 + n
+    return out
+
+
+SPACE = [32, 9, 10, 13]                            # ptttype.BYTES_SPACE
+
+
+def ref_find_record(content, key):
+    """1-based number of the first line whose first token equals the key under strcasecmp (NUL-terminated prefixes);
+    the token is what cmsys.tokenize cuts: up to the LAST separator byte of the line, the whole line without one"""
+    k = [lower(x) for x in cprefix(key)]
+    for i, l in enumerate(ref_lines(content)):
+        seps = [j for j, x in enumerate(l) if x in SPACE]
+        first = l[:seps[-1]] if seps else l
+        if [lower(x) for x in cprefix(first)] == k:
+            return i + 1
+    return 0
+
+
 def ref_strip_ansi(s, flag):
     """tokenise: text byte | ESC [ params cmd | ESC x | truncated; keep per mode"""
     out, i, n = [], 0, len(s)
@@ -360,6 +433,154 @@ def main():
         expect("types.ReadLine (all lines until EOF)", "readline-ref", ln, r, want, "(each line without its LF and one CR, empty lines included)")
         c.nontrivial(("rl", s))
     c.sample({"op": "ReadLine", "stream": repr(bytes(deep[-1])), "lines": len(ref_lines(deep[-1]))})
+    # ReadLine over readers that FAIL: the stream is a list of events (byte | read error handed out once), delivered
+    # through bufio.NewReaderSize(reader, bufsize) by a reader that cuts the bytes into Reads as `chunks` says and
+    # reports an error alone (mode 0), with the last data (1), or through iotest.OneByteReader / HalfReader /
+    # DataErrReader (2, 3, 4). The model sees only the events and the number of calls.
+    E_IO, E_TMO, E_STALE = 257, 258, 259
+    CFGS = [("", 16, 0), ("1", 16, 0), ("", 4096, 1), ("3 0 2", 16, 2), ("2 5", 16, 4), ("7", 32, 3), ("", 16, 1), ("0 1 0 0 4", 4096, 0)]
+    ev_alpha = [97, 10, 13, 256, E_IO, E_TMO]
+    n_ev = 5 if thorough else 4
+    ev_cases = []                                   # (events, ncalls, chunks, bufsize, mode)
+    for k, evs in enumerate(strings_upto(ev_alpha, n_ev)):
+        for cf in CFGS[:5]:
+            ev_cases.append((list(evs), len(evs) + 1) + cf)
+    for k, evs in enumerate(itertools.product(ev_alpha, repeat=n_ev + 1)):
+        ev_cases.append((list(evs), len(evs) + 1) + CFGS[k % len(CFGS)])
+    c.cov["exhaustive_parts"].append("all event streams (byte 'a', LF, CR, io.EOF in the middle, an I/O error, a timeout) of length <= %d through ReadLine over 5 reader configurations, length %d over one of 8" % (n_ev, n_ev + 1))
+
+    def ev_text(nlines, maxlen):
+        out = []
+        for _ in range(nlines):
+            out += [rng.choice([65, 66, 32, 13, 0xA4, 0x40, 49, 0]) for _ in range(rng.randrange(0, maxlen))] + rng.choice([[10], [10], [13, 10]])
+        if rng.random() < .4:
+            out += [rng.choice([65, 66, 13, 49]) for _ in range(rng.randrange(1, maxlen))]      # unterminated last line
+        return out
+
+    def ev_cfg():
+        chunks = rng.choice(["", "1", "2", "16", "17", toks([rng.randrange(0, 40) for _ in range(rng.randrange(1, 6))] + [rng.randrange(1, 40)])])
+        return (chunks, rng.choice([16, 16, 17, 64, 4096]), rng.randrange(5))
+
+    def with_calls(evs, cf):
+        return (evs, sum(1 for x in evs if x == 10 or x >= 256) + 3) + cf
+
+    # the two streams of the first report: an I/O error after 25 bytes, a timeout on the 2nd read of a 16-byte buffer
+    demo = [ord(x) for x in "SYSOP\n\nguest\nteemocogs-123456789\nlast\n"]
+    ev_cases.append(with_calls(demo[:25] + [E_IO] * 12, ("", 4096, 0)))                          # the error stays (error-after-n reader)
+    ev_cases.append(with_calls(demo[:25] + [E_IO] + demo[25:], ("", 4096, 0)))                   # the error goes away
+    demo2 = [ord(x) for x in "0123456789abcdefXYZ\nnext\n"]
+    ev_cases.append(with_calls(demo2[:16] + [E_TMO] + demo2[16:], ("16", 16, 0)))
+    for _ in range(6000 if thorough else 700):
+        evs = ev_text(rng.randrange(1, 8), rng.choice([4, 20, 50]))
+        kind = rng.randrange(6)
+        code = rng.choice([E_IO, E_TMO, E_STALE, 260])
+        if kind == 0:                                                   # one error at a random place, then the stream goes on
+            i = rng.randrange(len(evs) + 1); evs = evs[:i] + [code] + evs[i:]
+        elif kind == 1:                                                 # the error stays: every later read fails
+            i = rng.randrange(len(evs) + 1); evs = evs[:i] + [code] * (evs[:i].count(10) + 4)
+        elif kind == 2:                                                 # several errors, some of them adjacent
+            for _ in range(rng.randrange(2, 5)):
+                i = rng.randrange(len(evs) + 1); evs = evs[:i] + [rng.choice([E_IO, E_TMO, E_STALE, 260])] * rng.choice([1, 1, 2]) + evs[i:]
+        elif kind == 3:                                                 # exactly at a line boundary / at the very start / at the very end
+            lf = [i + 1 for i, x in enumerate(evs) if x == 10] + [0, len(evs)]
+            i = rng.choice(lf); evs = evs[:i] + [code] + evs[i:]
+        elif kind == 4:                                                 # io.EOF in the middle (a file that grows), maybe an error too
+            i = rng.randrange(len(evs) + 1); evs = evs[:i] + [256] + evs[i:]
+            if rng.random() < .5:
+                i = rng.randrange(len(evs) + 1); evs = evs[:i] + [code] + evs[i:]
+        ev_cases.append(with_calls(evs, ev_cfg()))                      # kind 5: a healthy reader
+    for n in ((4000, 4096, 4500, 9000) if not thorough else (4000, 4095, 4096, 4097, 4500, 8192, 9000, 70000)):
+        body = [97 + (i % 23) for i in range(n)]                        # the error falls into a line longer than bufio's buffer
+        for at in (n // 2, n - 1, n):
+            ev_cases.append(with_calls([66, 10] + body[:at] + [E_IO] + body[at:] + [10, 67, 10], ("", 4096, 0)))
+            ev_cases.append(with_calls([66, 10] + body[:at] + [E_TMO] * 5, (rng.choice(["", "1000", "4096 1"]), rng.choice([16, 4096]), rng.randrange(5))))
+    lines = ["26|%s|%d|%s|%d %d" % (toks(e), n, ch, bs, md) for e, n, ch, bs, md in ev_cases]
+    n_mid = 0
+    for (evs, ncalls, ch, bs, md), ln, r in zip(ev_cases, lines, both(lines, "ReadLine(failing reader)")):
+        if bad_status("types.ReadLine over a failing reader", ln, r, "readline-io-crash"):
+            continue
+        got = parse_rl_events(r)
+        short = ln if len(ln) < 600 else ln[:600] + " ..."
+        want = [0, ncalls]
+        for o in ref_readline_events(evs, ncalls):
+            want += ([0, len(o[1])] + o[1]) if o[0] == 'L' else [1, o[1]]
+        if 256 not in evs:
+            # what every caller (a loop on err == nil) sees: complete lines of the input, then the first error
+            wl, we = caller_view(evs)
+            gl = []
+            for g in got:
+                if g[0] != 'L':
+                    break
+                gl.append(g[1])
+            ge = got[len(gl)] if len(gl) < len(got) else None
+            errs = [i for i, x in enumerate(evs) if x >= 256]
+            mid = bool(errs) and errs[0] > 0 and evs[errs[0] - 1] != 10
+            n_mid += mid
+            if gl != wl or ge is None or ge[0] != 'E' or ge[1] != we:
+                if len(gl) > len(wl) or gl != wl[:len(gl)]:
+                    j = min([i for i in range(min(len(gl), len(wl))) if gl[i] != wl[i]] + [min(len(gl), len(wl))])
+                    what = "call %d returned %r with a nil error: that is not a line of the input%s" % (
+                        j + 1, bytes(gl[j][:60]), " (the read failed with error %d in the middle of this line, %r is only what had been read)" % (we, bytes(gl[j][:60])) if mid and j == len(wl) else "")
+                    key = "readline-fragment-as-line"
+                else:
+                    what = "after %d lines the caller got %s, expected the %s" % (len(gl), ge, "read error %d" % we if we else "lines %s and io.EOF" % wl[len(gl):len(gl) + 2])
+                    key = "readline-io-error-lost"
+                c.violation(key, "types.ReadLine over a reader that fails (events %s, bufio size %d, reader kind %d): %s" % (evs[:80], bs, md, what),
+                            {"cases": [ln], "expected": toks(want), "caller_must_see": "lines %s then error %d" % (wl[:8], we), "got": toks(r[:300])})
+                continue
+        if r != want:
+            c.violation("readline-io-ref", "types.ReadLine called %d times over a failing reader, %s: got %s, the reference (ReadBytes semantics: bytes up to LF | up to the error, which is reported without the bytes | the rest at EOF) gives %s"
+                        % (ncalls, short, r[:80], want[:80]), {"cases": [ln], "expected": toks(want), "got": toks(r[:300])})
+        c.nontrivial(("rlev", tuple(evs), ch, bs, md))
+    c.cov["readline_error_in_mid_line"] = n_mid
+    c.sample({"op": "ReadLine(failing reader)", "events": demo[:25] + [E_IO], "caller_sees": [bytes(l).decode() for l in caller_view(demo[:25] + [E_IO])[0]], "then_error": 1})
+
+    # FileFindRecord / FileExistsRecord on real files: every small file, and files with one very long line (bufio's
+    # default buffer is 4096 bytes, a bufio.Scanner gives up at 65536) with the key before, on and after it
+    FA = [97, 65, 98, 32, 10, 13]
+    fcases = [(list(ct), k) for ct in strings_upto(FA, 5 if thorough else 4) for k in ([97], [65, 0, 98], [98], [])]
+    c.cov["exhaustive_parts"].append("all files of length <= %d over 'a','A','b',blank,LF,CR x 4 keys through FileFindRecord/FileExistsRecord" % (5 if thorough else 4))
+    long_ns = (4095, 4096, 4097, 8192, 65534, 65535, 65536, 65537, 70000) + ((131072, 200000, 300000) if thorough else ())
+    for n in long_ns:
+        body = [97 + (i % 23) for i in range(n)]
+        up = [upper(x) for x in body]
+        shapes = [[103, 10, 10] + body + [10, 10] + [83, 89, 83, 13, 10] + [108, 97],        # g, "", LONG, "", SYS, la
+                  [103, 10] + body,                                                            # the long line is the last one, unterminated
+                  body + [13, 10, 108, 97, 10]]                                                # ... the first one
+        for ct in shapes:
+            for k in ([103], [115, 121, 115], [76, 65, 0, 9], [110, 111]):
+                fcases.append((ct, k))
+        if n in (4096, 65535, 65536, 70000) or thorough:
+            fcases.append((shapes[0], up))                                                     # the long line itself is a record
+            fcases.append((shapes[1], up))
+            fcases.append((shapes[0], up[:-1]))                                                # ... and nothing shorter matches it
+            k = n // 3
+            fcases.append(([103, 10] + body[:k] + [32] + body[k + 1:] + [10, 108, 97], up[:k]))  # first token of the long line
+    for _ in range(2000 if thorough else 300):
+        ct = ev_text(rng.randrange(1, 12), rng.choice([3, 12]))
+        ls = [l for l in ref_lines(ct)]
+        k = list(rng.choice(ls)) if ls and rng.random() < .7 else [rng.choice([65, 66, 49]) for _ in range(rng.randrange(0, 4))]
+        if rng.random() < .3:
+            k = [upper(x) if rng.random() < .5 else lower(x) for x in k]
+        fcases.append((ct, k))
+    lines = ["27|%s|%s" % (toks(ct), toks(k)) for ct, k in fcases]
+    n_after_long = 0
+    for (ct, k), ln, r in zip(fcases, lines, both(lines, "FileFindRecord")):
+        if bad_status("cmsys.FileFindRecord", ln, r, "findrecord-crash"):
+            continue
+        want = ref_find_record(ct, k)
+        longest = max([len(l) for l in ref_lines(ct)] + [0])
+        n_after_long += want > 0 and longest >= 65536
+        if r != [0, want, int(want > 0)]:
+            short = ln if len(ln) < 300 else "a file of %d bytes in %d lines, the longest of %d bytes, key %s" % (len(ct), len(ref_lines(ct)), longest, repr(bytes(k)) if len(k) < 40 else "of %d bytes" % len(k))
+            if want > 0 and r[1] == 0:
+                key, what = "findrecord-line-not-read", "line %d of the file matches the key but FileFindRecord / FileExistsRecord answer %d / %d: the line was never read" % (want, r[1], r[2])
+            else:
+                key, what = "findrecord-ref", "FileFindRecord / FileExistsRecord answer %d / %d, the first matching line is %d" % (r[1], r[2], want)
+            c.violation(key, "cmsys.FileFindRecord on %s: %s" % (short, what), {"cases": [ln], "expected": "0 %d %d" % (want, int(want > 0)), "got": toks(r)})
+        c.nontrivial(("ffr", tuple(ct) if len(ct) < 200 else (len(ct), longest, sum(ct)), tuple(k[:50]), len(k)))
+    c.cov["findrecord_key_on_or_after_a_line_of_64KiB_or_more"] = n_after_long
+    c.sample({"op": "FileFindRecord", "file": "g LF LF <line of 70000 bytes> LF LF SYS CR LF la", "key": "sys", "expected": 5})
     # TrimDBCS
     lines = ["7|" + toks(s) for s in deep]
     for s, ln, r in zip(deep, lines, both(lines, "TrimDBCS")):
@@ -641,7 +862,9 @@ def main():
                   "every pair of strings up to length 3 over a 5/7-byte alphabet through the binary helpers, all byte values through the per-byte helpers; plus PRNG(seed) strings of length 5..90 "
                   "(alphabet / uniform bytes / ANSI-token / DBCS-token generators) and related pairs; a case is non-trivial if it is a distinct (helper, input) that returned normally",
              assumptions=["bufio.Reader.ReadBytes, bytes.Index/IndexByte/HasPrefix/TrimRight and the UTF-8 decoding inside bytes.ToLower are re-specified in Model/C18.v and exercised by the correspondence, not verified",
-                          "ReadLine is exercised over in-memory streams (bytes.Reader); I/O errors other than EOF are outside the model"])
+                          "ReadLine is exercised over in-memory streams; read errors are injected by the driver's own io.Reader (alone, with the last data, through iotest.OneByteReader/HalfReader/DataErrReader) "
+                          "and modelled as events handed out once; errors of a real device (EIO/ESTALE from the kernel) are not provoked, they reach bufio through the same Read interface",
+                          "FileFindRecord/FileExistsRecord run on real files of the scratch file system, lines up to 70 000 bytes in the quick tier (300 000 in the thorough tier); a file that cannot be opened is not exercised"])
 
 
 if __name__ == "__main__":
